@@ -786,6 +786,8 @@ class revert_intro(Method):
         nxt = state.get_proof_item(id.incr_id(1))
         assert nxt.rule == 'intros' and len(nxt.prevs) >= 2 and nxt.prevs[-1] == id and nxt.prevs[-2] == prevs[0], \
             "revert_intro: can only revert the last assumption of the block concluded from this goal"
+        assert prevs[0].id[:-1] == id.id[:-1], \
+            "revert_intro: the assumption must belong to the block of the goal"
         def cited(prf):
             for it in prf.items:
                 if it is not nxt and prevs[0] in it.prevs:
